@@ -356,3 +356,42 @@ fn tq_builder_finalize_contract() {
         }
     }
 }
+
+
+// ------------------------------------------------------------------ ownership conservation (C04), unit K-LEAK
+
+#[kani::proof]
+#[kani::unwind(34)]
+fn tq_put_leakcheck() {
+    use crate::verif_hooks::gen::*;
+    let size: usize = kani::any();
+    let quota: usize = kani::any();
+    kani::assume(size >= 1 && size <= N && quota <= size);
+    let recent = any_tracked_abs(N, 1);
+    let frequent = any_tracked_abs(N, 1);
+    let ghost = any_tracked_abs(N, 1);
+    kani::assume(recent.cap == size && frequent.cap == size && ghost.cap <= size && recent.n + frequent.n <= size);
+    kani::assume(partitioned(&[&recent, &frequent, &ghost]) && values_distinct(&[&recent, &frequent, &ghost]));
+    reset_drops();
+    let mut c = TwoQueueCache::verif_from_parts(size, quota, build_tracked(&recent, PoisonHasher), build_tracked(&frequent, PoisonHasher), build_tracked(&ghost, PoisonHasher));
+    let k: u8 = kani::any();
+    let v: u8 = kani::any();
+    kani::assume(k < 16 && v >= 16 && v < 32);
+    let before = ids_of(&[&recent, &frequent, &ghost]);
+    kani::assume(before & (1 << v) == 0);
+    let hit = recent.has(k) || frequent.has(k) || ghost.has(k);
+    kani::cover!(ghost.has(k) && recent.n + frequent.n == size && ghost.n == ghost.cap, "2q tracked put: ghost hit, everything full");
+    kani::cover!(!hit && recent.n + frequent.n == size && ghost.n == ghost.cap, "2q tracked put: new key, ghost overflow");
+    let created = before | (1 << v) | if hit { 0 } else { 1 << k };
+    let r = c.put(Tk(k), Tv(v));
+    drop(r);
+    if hit {
+        assert!(drops(k) == 1, "[C04.once] on an update or revival the surplus key object is dropped exactly once");
+        set_drops(k, 0);
+    }
+    let (post, wf) = c.verif_check();
+    assert!(wf, "[C03.wf] queues well formed after put with heap-tracked payloads");
+    assert!(conserved(created, ids_of(&[&post.recent, &post.frequent, &post.ghost])), "[C04.once] after put every key and value is retained (resident or ghost), or was handed back, or was dropped exactly once");
+    drop(c);
+    assert!(conserved(created, 0), "[C04.drop] dropping the cache releases every retained key and value exactly once");
+}
